@@ -380,8 +380,9 @@ func VH08f_wide() {
 	for i := 0; i < W; i++ {
 		pipes = append(pipes, side.Peer("w"+string(rune('a'+i))))
 	}
+	src := -1
 	if proto == "star" || proto == "xstar" {
-		src := verif.Choice("src", 3) * (W - 1) / 2 // first, middle or last peer
+		src = verif.Choice("src", 3) * (W - 1) / 2 // first, middle or last peer
 		hop := verif.Byte("hop")
 		verif.Assume(hop < 7)
 		body := []byte{'f', verif.Byte("payload")}
@@ -415,6 +416,32 @@ func VH08f_wide() {
 	verif.Quiesce()
 	if verif.Choice("joins", 2) == 1 {
 		pipes = append(pipes, side.Peer("newcomer"))
+	}
+	if src >= 0 && !pipes[src].Closed {
+		// the same member sends again after the membership changed (same number of peers or not): the copy goes to
+		// exactly the peers connected NOW - the newcomer included, the one that left excluded
+		before := make([]int, len(pipes))
+		for i, p := range pipes {
+			before[i] = len(p.Sent)
+		}
+		body2 := []byte{'g', verif.Byte("payload2")}
+		pipes[src].Deliver(append([]byte{0, 0, 0, 0}, body2...))
+		verif.Quiesce()
+		for i, p := range pipes {
+			switch {
+			case i == src:
+				verif.Assert(len(p.Sent) == before[i], lab+"/forwarded-back-to-origin")
+			case p.Closed:
+				verif.Assert(len(p.Sent) == before[i], lab+"/message-written-to-a-detached-connection")
+			default:
+				verif.Assert(len(p.Sent) == before[i]+1, lab+"/peer-connected-now-did-not-get-the-forwarded-copy")
+				if len(p.Sent) == before[i]+1 {
+					x := p.Sent[before[i]].Bytes()
+					verif.Assert(len(x) == 6 && verif.BytesEq(x[4:], body2), lab+"/forwarded-body-changed")
+				}
+			}
+		}
+		verif.Reach("wide-forwarded-after-membership-change")
 	}
 	base := make([]int, len(pipes))
 	for i, p := range pipes {
